@@ -1157,6 +1157,7 @@ class comp(exp):
         # once simplified, it may be reduced to 1 part, so:
         if (0, res.size) in res.parts.keys():
             res = res.parts[(0, res.size)]
+            res.sf = self.sf
         return res
 
     def copy(self):
